@@ -26,15 +26,18 @@ Lemma no_shared_class_attr_write :
   forallb (fun r => match r_flag r with FShared => false | _ => true end) rows = true.
 Proof. vm_compute. reflexivity. Qed.
 
-(* the reviewed defects: exactly one site writes into an author-supplied object *)
-Lemma defects_are : map (fun r => (r_func r, r_target r)) (defects rows)
-                    = [("IntervalGrader.__init__", "use_config['subgrader']")]%string.
+(* no reviewed site is a defect: nothing writes into an author-supplied object *)
+Lemma defects_none : defects rows = [].
 Proof. vm_compute. reflexivity. Qed.
 
-Lemma not_all_harmless : forallb harmless rows = false.
+Lemma all_harmless : forallb harmless rows = true.
 Proof. vm_compute. reflexivity. Qed.
 
-Lemma all_harmless_but_defects :
-  forallb harmless (filter (fun r => negb (existsb (fun d => String.eqb (r_func d) (r_func r) && String.eqb (r_target d) (r_target r))
-                                                  (defects rows))) rows) = true.
+Lemma all_harmless_In : forall r, In r rows -> harmless r = true.
+Proof. intros r H. exact (proj1 (forallb_forall harmless rows) all_harmless r H). Qed.
+
+(* the review table can tell: a row like the one IntervalGrader.__init__ had before ff4d9d4 is not accounted for *)
+Lemma old_interval_row_rejected :
+  accounted (mkRow "mitxgraders/formulagrader/intervalgrader.py" "IntervalGrader.__init__" RParam "config" "use_config"
+                   "use_config['subgrader']" "assign" FPlain ShItem SNone 1) = false.
 Proof. vm_compute. reflexivity. Qed.
